@@ -166,24 +166,29 @@ Section Interp.
   Variable ucall : N -> list value -> cres.       (* user code: deterministic, may raise *)
   Variable rfuel : nat.                           (* depth budget of template resolution *)
 
-  Definition M (A : Type) : Type := S -> list event -> (res A * S * list event).
-  Definition ret {A} (a : A) : M A := fun s l => (Ok a, s, l).
-  Definition fail {A} (c : cause) (ee : bool) : M A := fun s l => (Err c ee, s, l).
+  (** state + writer (events in order of occurrence) + exceptions *)
+  Definition M (A : Type) : Type := S -> (res A * S * list event).
+  Definition ret {A} (a : A) : M A := fun s => (Ok a, s, []).
+  Definition fail {A} (c : cause) (ee : bool) : M A := fun s => (Err c ee, s, []).
   Definition bind {A B} (m : M A) (f : A -> M B) : M B :=
-    fun s l => match m s l with
-               | (Ok a, s', l') => f a s' l'
-               | (Err c ee, s', l') => (Err c ee, s', l')
-               end.
-  Definition emit (e : event) : M unit := fun s l => (Ok tt, s, e :: l).
+    fun s => match m s with
+             | (Ok a, s', l) => match f a s' with (r, s'', l') => (r, s'', l ++ l') end
+             | (Err c ee, s', l) => (Err c ee, s', l)
+             end.
+  Definition emit (e : event) : M unit := fun s => (Ok tt, s, [e]).
   (** try/except: [handler] gets the error; state and log written so far are kept. *)
   Definition catch {A} (m : M A) (h : cause -> bool -> M A) : M A :=
-    fun s l => match m s l with
-               | (Ok a, s', l') => (Ok a, s', l')
-               | (Err c ee, s', l') => h c ee s' l'
-               end.
+    fun s => match m s with
+             | (Ok a, s', l) => (Ok a, s', l)
+             | (Err c ee, s', l) => match h c ee s' with (r, s'', l') => (r, s'', l ++ l') end
+             end.
   (** what the [EvaluateRequest] default handler does to an exception leaving a node's
       evaluate: it becomes (or stays) an EvaluationError. *)
-  Definition wrap_eval {A} (m : M A) : M A := catch m (fun c _ => fail c true).
+  Definition wrap_eval {A} (m : M A) : M A :=
+    fun s => match m s with
+             | (Ok a, s', l) => (Ok a, s', l)
+             | (Err c _, s', l) => (Err c true, s', l)
+             end.
   Notation "x <- m ;; f" := (bind m (fun x => f)) (at level 61, m at next level, right associativity).
   Notation "m ;;; f" := (bind m (fun _ => f)) (at level 61, right associativity).
 
@@ -412,8 +417,8 @@ Section Interp.
       | (v', b) :: t' => if value_eq k v' then onhit b else go t'
       end.
 
-  Definition get_store : M S := fun s l => (Ok s, s, l).
-  Definition put_store (f : S -> S) : M unit := fun s l => (Ok tt, f s, l).
+  Definition get_store : M S := fun s => (Ok s, s, []).
+  Definition put_store (f : S -> S) : M unit := fun s => (Ok tt, f s, []).
 
   (** [Option.evaluate] given the evaluator for its sub-expressions *)
   Definition option_eval (ev : expr -> M value) (k : key) (dflt dom : option expr) (o : dict) : M value :=
